@@ -95,11 +95,11 @@ chk("C08", "exploration",
     "calls from below minimum_step to many turns, starts on boundaries included. The propagator reaches the navigator only through a "
     "recording proxy (the GTV template seam). Oracles per call: energy unchanged and unit direction; 0 < distance <= step; returned "
     "flag == geo.is_on_boundary(); outcome is full step / looping / boundary (a short unflagged step must be a bump <= 0.1 "
-    "delta_intersection); end point on the analytic helix within max(eps_rel_max s (2 + n_substeps), delta_chord) + 3(delta_intersection "
+    "delta_intersection); end point on the analytic helix within 3 eps_rel_max s (2 + n_substeps) + 3(delta_intersection "
     "+ minimum_step); unflagged end points lie in the start volume; flagged ones lie on a reference surface, the helix before the hit "
     "stays in the start volume up to the chord tolerance, and the post-crossing volume is the one the path enters.",
     G_NOTE + " RZMapField is not run (no field map is generated). The accuracy model of the driver is an assumption calibrated on the "
-    "unchanged tree (largest observed error/tolerance outside the recorded finding regimes: 0.43).",
+    "unchanged tree (largest observed error/tolerance outside the recorded finding regimes, over 3e5 plans: 0.31).",
     "deterministic simulation: seeded step subdivision and driver configuration vs analytic helix and reference locator", "§5 C08", "G8")
 
 chk("C07", "exploration",
